@@ -1190,8 +1190,9 @@ def correspond(ctx, drivers):
     guard(ctx, 'colon lists', corr_colon, ctx, drv)
     guard(ctx, 'string dictionary', corr_dict, ctx, drv)
     guard(ctx, 'records', corr_records, ctx, drv)
-    guard(ctx, 'keyvalue / IO lines', corr_kv, ctx, drv)
-    guard(ctx, 'whole entities / files', corr_ent, ctx, drv)
+    if G.HANGS[0] < 3:
+        guard(ctx, 'keyvalue / IO lines', corr_kv, ctx, drv)
+        guard(ctx, 'whole entities / files', corr_ent, ctx, drv)
     guard(ctx, 'lazy database', _corr_lazy_all, ctx, drv)
     ctx.exhaustive = False
 
@@ -1854,6 +1855,11 @@ def search(ctx):
                 for ext in (True, False):
                     out = impl_long(t, ext, '\t')
                     check_long_property(ctx, t, ext, out, impl_read_colon(out + '\n', True) if out is not None else {})
+    if G.HANGS[0] >= 3:
+        # the writer does not terminate (witnesses recorded): the remaining round trips would only be slow
+        ctx.notes.append('writer hangs: generated / shipped / history searches skipped')
+        shrink(ctx)
+        return
     guard(ctx, 'generated FGDs', search_generated, ctx)
     guard(ctx, 'shipped database', search_shipped, ctx)
     guard(ctx, 'histories with in-place edits', search_histories, ctx)
